@@ -12,8 +12,8 @@
 EXTENDS WhisperFile, Json, IOUtils, Sequences
 
 Trace == ndJsonDeserialize(IOEnv.TRACE_FILE)
-VARIABLE l
-tvars == <<l, disk, lock, pc, cache, dirty, val, sess, seen, commits, hdrOk>>
+VARIABLE l, win
+tvars == <<l, win, disk, lock, pc, cache, dirty, val, sess, seen, commits, hdrOk, exists, mode, dmg>>
 Ln == Trace[l]
 
 \* a new file / a new run: everything idle, generation 0
@@ -23,7 +23,7 @@ Ln == Trace[l]
 Reset == /\ Ln.ev = "reset"
          /\ disk' = [pg \in Pages |-> 0] /\ lock' = "free" /\ pc' = [p \in Procs |-> "idle"] /\ commits' = 0
          /\ hdrOk' = ("nofile" \notin DOMAIN Ln)
-         /\ UNCHANGED <<cache, dirty, val, sess, seen>>
+         /\ UNCHANGED <<cache, dirty, val, sess, seen, aux>>
 
 \* OpenFd . Acquire . ReadHeader(ok)
 OpenDone(p) == /\ Ln.ev = "opendone"
@@ -31,48 +31,52 @@ OpenDone(p) == /\ Ln.ev = "opendone"
                /\ hdrOk \/ "created" \in DOMAIN Ln          \* an Open succeeds only on an initialised file; Create initialises it
                /\ lock' = p /\ pc' = [pc EXCEPT ![p] = "open"]
                /\ hdrOk' = TRUE
-               /\ UNCHANGED <<disk, cache, dirty, val, sess, seen, commits>>
+               /\ UNCHANGED <<disk, cache, dirty, val, sess, seen, commits, aux>>
 
-\* OpenFd . Acquire . ReadHeader(failing) on the not yet initialised file: only before the creator holds the lock
+\* OpenFd . Acquire . ReadHeader(failing) on the not yet initialised file: only before the creator holds the lock.
+\* The event is logged AFTER the failed Open returned, so it may reach the log later than events of other sessions
+\* that really happened after it: it is explained by any moment since this process' previous event at which the
+\* file was uninitialised and unlocked (`win`: the processes for which such a moment has been seen).
 OpenErr(p) == /\ Ln.ev = "openerr"
-              /\ pc[p] = "idle" /\ lock = "free" /\ ~hdrOk
-              /\ UNCHANGED <<disk, lock, pc, cache, dirty, val, sess, seen, commits, hdrOk>>
+              /\ pc[p] = "idle" /\ p \in win
+              /\ UNCHANGED <<disk, lock, pc, cache, dirty, val, sess, seen, commits, hdrOk, aux>>
 
 \* OpenFd . Acquire . ReadHeader(failing) . cleanup: the path must not stay locked
 OpenFail(p) == /\ Ln.ev = "openfail"
                /\ pc[p] = "idle"
                /\ Ln.probe = "free"
-               /\ UNCHANGED <<disk, lock, pc, cache, dirty, val, sess, seen, commits, hdrOk>>
+               /\ UNCHANGED <<disk, lock, pc, cache, dirty, val, sess, seen, commits, hdrOk, aux>>
 
 \* WLoad: the generation read is the committed one
 Load(p) == /\ Ln.ev = "load"
            /\ pc[p] = "open" /\ lock = p
            /\ Ln.v = commits /\ \A pg \in Pages : disk[pg] = Ln.v
-           /\ UNCHANGED <<disk, lock, pc, cache, dirty, val, sess, seen, commits, hdrOk>>
+           /\ UNCHANGED <<disk, lock, pc, cache, dirty, val, sess, seen, commits, hdrOk, aux>>
 
 \* WStamp* . SyncStart . FlushPage* . SyncDone
 Synced(p) == /\ Ln.ev = "synced"
              /\ pc[p] = "open" /\ lock = p
              /\ Ln.v = commits + 1
              /\ disk' = [pg \in Pages |-> Ln.v] /\ commits' = commits + 1
-             /\ UNCHANGED <<lock, pc, cache, dirty, val, sess, seen, hdrOk>>
+             /\ UNCHANGED <<lock, pc, cache, dirty, val, sess, seen, hdrOk, aux>>
 
 \* (ReadPage | Observe)* of one fetch thread: one generation, the committed one
 Seen(p) == /\ Ln.ev = "seen"
            /\ pc[p] = "open" /\ lock = p
            /\ Ln.vals = <<commits>>
-           /\ UNCHANGED <<disk, lock, pc, cache, dirty, val, sess, seen, commits, hdrOk>>
+           /\ UNCHANGED <<disk, lock, pc, cache, dirty, val, sess, seen, commits, hdrOk, aux>>
 
 CloseStart(p) == /\ Ln.ev = "closestart"
                  /\ pc[p] = "open" /\ lock = p
                  /\ lock' = "free" /\ pc' = [pc EXCEPT ![p] = "idle"]
-                 /\ UNCHANGED <<disk, cache, dirty, val, sess, seen, commits, hdrOk>>
+                 /\ UNCHANGED <<disk, cache, dirty, val, sess, seen, commits, hdrOk, aux>>
 
-TInit == /\ l = 1 /\ Init /\ hdrOk = TRUE
+TInit == /\ l = 1 /\ Init /\ hdrOk = TRUE /\ exists = TRUE /\ win = {}
 TNext == /\ l <= Len(Trace) /\ l' = l + 1
          /\ \/ Reset
             \/ \E p \in Procs : Ln.ev # "reset" /\ Ln.p = p /\
                  (OpenDone(p) \/ OpenErr(p) \/ OpenFail(p) \/ Load(p) \/ Synced(p) \/ Seen(p) \/ CloseStart(p))
+         /\ win' = (IF Ln.ev = "reset" THEN {} ELSE win \ {Ln.p}) \cup (IF ~hdrOk' /\ lock' = "free" THEN Procs ELSE {})
 TSpec == TInit /\ [][TNext]_tvars
 
 \* the session-level steps preserve the invariants of WhisperFile
